@@ -3,6 +3,10 @@ package props
 import (
 	"encoding/json"
 	"fmt"
+	"github.com/jmeaster30/vore/libvore/engine"
+	"os"
+	"path/filepath"
+	"reflect"
 	"strings"
 	"testing"
 	"time"
@@ -646,4 +650,130 @@ func containsKind(n *Node, k Kind) bool {
 		}
 	}
 	return containsKind(n.Body, k)
+}
+
+// ---------------------------------------------------------------- several files
+
+// MultiFileCase: a multi-command source run over several files in one RunFiles call.
+type MultiFileCase struct {
+	Defs     string   `json:"defs"`     // definitions (may be empty)
+	Commands []string `json:"commands"` // find commands
+	Texts    []string `json:"texts"`    // one per file
+}
+
+// checkMultiFileCase: RunFiles(program, files) gives, command by command and file by
+// file, what each command taken alone (with the definitions) gives on a string holding
+// the bytes of that file; a second call with the same slice gives the same, and the
+// slice the caller passed is left as it was.
+func checkMultiFileCase(c MultiFileCase) (sig, what string, discard bool, nmatches int) {
+	dir, err := os.MkdirTemp(scratchDir(), "mf-")
+	if err != nil {
+		panic(err)
+	}
+	defer os.RemoveAll(dir)
+	var paths []string
+	for i, tx := range c.Texts {
+		p := filepath.Join(dir, fmt.Sprintf("f%d.txt", i))
+		if err := os.WriteFile(p, []byte(tx), 0o644); err != nil {
+			panic(err)
+		}
+		paths = append(paths, p)
+	}
+	var want []MatchRec
+	for _, cmd := range c.Commands {
+		for i, tx := range c.Texts {
+			r, sig, what, discard := runSrc(strings.TrimSpace(c.Defs+" "+cmd), tx)
+			if discard || sig != "" {
+				return sig, what, discard, 0
+			}
+			for _, m := range r {
+				m.Filename = paths[i]
+				want = append(want, m)
+			}
+		}
+	}
+	src := strings.TrimSpace(c.Defs + " " + strings.Join(c.Commands, " "))
+	v, cerr, p := CompileSafe(src)
+	if p != nil || cerr != nil {
+		return "rendering-rejected", fmt.Sprintf("%s: every command compiles alone, the whole source does not (%v %v)", src, cerr, p), false, 0
+	}
+	arg := append([]string{}, paths...)
+	for round := 1; round <= 2; round++ {
+		res := RunFilesSafe(v, arg, engine.NOTHING, int64(vmLimitEquiv)*int64(len(c.Texts)*len(c.Commands)))
+		if res.OverBudget {
+			return "", "", true, 0
+		}
+		if res.Panic != nil {
+			return res.Panic.Sig(), fmt.Sprintf("RunFiles of %s over %d files panicked (call %d): %s", src, len(paths), round, res.Panic.Sig()), false, 0
+		}
+		if !reflect.DeepEqual(arg, paths) {
+			return "caller-slice-changed", fmt.Sprintf("RunFiles of %s changed the file list it was given: %v -> %v", src, paths, arg), false, 0
+		}
+		got := RecsOf(res.Matches)
+		if !recsEqual(got, want) {
+			return "command-dependence", fmt.Sprintf("RunFiles of %s over files holding %q (call %d) gives %s, its commands taken alone on the same bytes give %s", src, c.Texts, round, fmtRecs(got), fmtRecs(want)), false, 0
+		}
+	}
+	return "", "", false, len(want)
+}
+
+func init() {
+	registerReplay("multifile", func(raw json.RawMessage) (string, string) {
+		var c MultiFileCase
+		if err := json.Unmarshal(raw, &c); err != nil {
+			return "bad-replay-file", err.Error()
+		}
+		sig, what, _, _ := checkMultiFileCase(c)
+		return sig, what
+	})
+}
+
+func TestC13Files(t *testing.T) {
+	seedNote(t)
+	StartWatchdog("C13", 60*time.Second)
+	st := NewStats("C13", "files", "generated definitions + 1..3 find commands run with one RunFiles call over 1..3 files (texts sampled from the bodies): the result equals, command by command and file by file, the results of each command taken alone with the definitions on a string holding the file's bytes; a second call with the same list gives the same and the caller's list is unchanged; non-trivial = at least 2 commands (definitions count: they are commands of the program), at least 2 files and at least one match; distinct by (source, texts)")
+	defer st.Write()
+	rapid.Check(t, func(t *rapid.T) {
+		globals, body := GenBodyProgram(t, AllModelFeatures, rapid.IntRange(1, 2).Draw(t, "depth"))
+		var defParts []string
+		for _, g := range globals {
+			defParts = append(defParts, strings.Join(g.Tokens(), " "))
+		}
+		defs := strings.Join(defParts, " ")
+		c := MultiFileCase{Defs: defs}
+		ncmd := rapid.IntRange(1, 3).Draw(t, "ncmd")
+		c.Commands = append(c.Commands, (&Program{Commands: []Command{{Amount: []string{"all"}, Body: body}}}).Source())
+		for i := 1; i < ncmd; i++ {
+			c.Commands = append(c.Commands, "find "+rapid.SampledFrom([]string{"all", "top 1", "skip 1", "last 1"}).Draw(t, "amount")+" "+rapid.SampledFrom([]string{"'a'", "at least 1 letter", "@/a+|b/", "line start any", "(digit or 'b') = v"}).Draw(t, "cmd"))
+		}
+		for i := rapid.IntRange(1, 3).Draw(t, "nfiles"); i > 0; i-- {
+			tx, _ := GenText(t, globals, body, true, 12)
+			c.Texts = append(c.Texts, tx)
+		}
+		st.Eval()
+		SetInflight(func() string { return jsonStr(Failure{Property: "C13", Kind: "multifile", Case: c}) })
+		sig, what, discard, nm := checkMultiFileCase(c)
+		ClearInflight()
+		if discard {
+			st.Count("discarded_vm_budget")
+			return
+		}
+		if sig == "compile-error" {
+			t.Fatalf("HARNESS: %s", what)
+		}
+		if sig != "" {
+			Fail(t, Failure{Property: "C13", Kind: "multifile", What: what, Case: c, Sig: sig})
+		}
+		st.Count(fmt.Sprintf("files_%d", len(c.Texts)))
+		st.Count(fmt.Sprintf("commands_%d", ncmd))
+		if defs != "" {
+			st.Count("with_definitions")
+		}
+		if (ncmd >= 2 || defs != "") && len(c.Texts) >= 2 && nm > 0 {
+			src := defs + " " + strings.Join(c.Commands, " ")
+			st.NonTrivial(src+"\x00"+strings.Join(c.Texts, "\x00"), func() any {
+				return map[string]any{"source": src, "texts": c.Texts, "matches": nm}
+			})
+		}
+	})
 }
